@@ -1036,7 +1036,13 @@ def bs_european_binary_gamma(
     d2_tensor = d2(s, t, v)
     w = v * t.sqrt()
 
-    gamma = -npdf(d2_tensor).div(w * spot.square()) * (1 + d2_tensor.div(w))
+    numerator = npdf(d2_tensor)
+    denominator = w * spot.square()
+    gamma = -numerator.div(denominator) * (1 + d2_tensor.div(w))
+    # 0 / 0 far out of the money (the squared spot underflows): the limit is zero
+    gamma = torch.where(
+        (numerator == 0).logical_and(denominator == 0), torch.zeros_like(gamma), gamma
+    )
 
     gamma = -gamma if not call else gamma  # put-call parity
 
